@@ -19,6 +19,7 @@ RULE = ("Hypothesis: base = well-formed sequence on 1-2 channels with time/key s
         "perturbed => False unless exactly the owning ignore flag is set (then True). Non-trivial = perturbation cases; "
         "distinct by case digest.")
 RULE = RULE + " Round f: an identical ill-formed decoration (a pitch struck twice without note-off) on both sides."
+RULE = RULE + " Round i: enharmonic twins as the perturbed key value."
 ASSUMPTIONS = ["for a single-note channel change the result under ignore_channel is not specified by the statement and not checked",
                "trailing rests (total duration) are not an attribute the statement lists; partners always have equal content"]
 TIERS = {"quick": dict(shards=8, examples=1200, alt_ppqn=[480], alt_shards=2),
@@ -159,7 +160,11 @@ def _case(draw):
                 new = draw(st.tuples(st.integers(1, 12), st.sampled_from(gens.DENOMS)).filter(lambda v: v != old))
                 om[i][2], om[i][3] = new
             else:
-                om[i][2] = draw(st.sampled_from(gens.KEYS).filter(lambda v: v != om[i][2]))
+                twin = {"Db": "C#", "C#": "Db", "Gb": "F#", "F#": "Gb", "Cb": "B", "B": "Cb"}.get(om[i][2])
+                if twin and draw(st.booleans()):
+                    om[i][2] = twin          # a different key signature that sounds the same (enharmonic spelling)
+                else:
+                    om[i][2] = draw(st.sampled_from(gens.KEYS).filter(lambda v: v != om[i][2]))
     if attr in ("ts_add", "ks_add"):
         kind = attr[:2]
         used = {om[j][1] for j in sig_idx(kind)}
